@@ -7,13 +7,28 @@
 //! delivery under a script-chosen `ConnectStyle`, monitor/manager reload at script-chosen points.
 //! The engine records facts only (NDJSON); the verdict is TLC's (spec/OnChainTrace.tla).
 //!
-//! usage: onchain [--scripts FILE] [--random N --profile c06|c06t|c07|c07r --seed S] --out TRACE
+//!
+//! The cheater's second-stage transactions: for channels without anchors they are the pre-signed
+//! SIGHASH_ALL transactions of its old state; for anchor channels the old-state monitor's
+//! `HTLCResolution` events give the `HTLCDescriptor`s, from which either the node's own wallet-backed
+//! handler builds the transactions (n HTLC inputs + a fee input, n HTLC outputs + change) or -- op
+//! `cheat` -- the engine assembles a transaction of a script-chosen shape by hand (HTLC inputs in any
+//! number, inputs of its own before / between / after them, outputs of its own wherever no HTLC input
+//! stands), signed by the real second node's channel signer (SIGHASH_SINGLE|ANYONECANPAY).
+//! Chain histories: op `unwind` takes the chain back below the commitment / a second-stage transaction /
+//! a claim (any depth), with or without the network forgetting the descendants; the transactions that
+//! left the chain confirm again when the script lets them.
+//!
+//! usage: onchain [--scripts FILE] [--random N --profile c06|c06t|c06r|c06s|c07|c07r|c07u --seed S] --out TRACE
 
+use bitcoin::absolute::LockTime;
 use bitcoin::hashes::Hash as _;
-use bitcoin::secp256k1::Secp256k1;
-use bitcoin::{OutPoint, ScriptBuf, Sequence, Transaction, TxOut, Txid, WPubkeyHash};
+use bitcoin::secp256k1::{Message, Secp256k1, SecretKey};
+use bitcoin::sighash::{EcdsaSighashType, SighashCache};
+use bitcoin::transaction::Version;
+use bitcoin::{Amount, OutPoint, ScriptBuf, Sequence, Transaction, TxIn, TxOut, Txid, WPubkeyHash, Witness};
 use lightning::chain::channelmonitor::{Balance, BalanceSource, ChannelMonitor};
-use lightning::chain::BlockLocator;
+use lightning::chain::{BlockLocator, Confirm};
 use lightning::util::wallet_utils::WalletSourceSync;
 use lightning::events::bump_transaction::BumpTransactionEvent;
 use lightning::events::Event;
@@ -24,7 +39,8 @@ use lightning::ln::msgs::{self, BaseMessageHandler, ChannelMessageHandler, Error
 use lightning::ln::outbound_payment::RecipientOnionFields;
 use lightning::ln::types::ChannelId;
 use lightning::routing::router::{Path, PaymentParameters, Route, RouteHop, RouteParameters};
-use lightning::sign::{OutputSpender, SpendableOutputDescriptor};
+use lightning::sign::ecdsa::EcdsaChannelSigner;
+use lightning::sign::{HTLCDescriptor, OutputSpender, SignerProvider, SpendableOutputDescriptor};
 use lightning::types::features::{ChannelFeatures, NodeFeatures};
 use lightning::types::payment::{PaymentHash, PaymentPreimage};
 use lightning::util::ser::{ReadableArgs, Writeable};
@@ -129,7 +145,7 @@ struct Net {
 	agent_owner: usize,
 	agent_bc: Option<&'static TestBroadcaster>,
 	commits: [Vec<CommitInfo>; 2],
-	commit_logged: bool,
+	commit_logged: Option<Txid>,
 	confirmed_commit: Option<(usize, usize)>,
 	pending: Vec<Pending>,
 	last_state: String,
@@ -142,6 +158,25 @@ struct Net {
 	mined: Vec<MemTx>,
 	fork: u32,
 	hwm: u32,
+	// the cheater's hand-made second-stage transactions
+	agent_descs: Vec<(HTLCDescriptor, LockTime)>,
+	agent_manual: bool,
+	fee_utxos: Vec<(OutPoint, TxOut)>,
+	fee_next: usize,
+	next_shape: Option<Value>,
+	txmap: HashMap<Txid, Transaction>,
+	open_h: u32,
+	rb_tick: u32,
+	in_reorg: bool,
+}
+
+fn harness_key() -> SecretKey {
+	SecretKey::from_slice(&[0x42; 32]).unwrap()
+}
+fn harness_script() -> ScriptBuf {
+	let secp = Secp256k1::new();
+	let pk = bitcoin::PublicKey::new(harness_key().public_key(&secp));
+	ScriptBuf::new_p2wpkh(&pk.wpubkey_hash().unwrap())
 }
 
 impl Net {
@@ -172,8 +207,13 @@ impl Net {
 	fn opj(&mut self, o: &OutPoint) -> Value {
 		json!([self.txi(&o.txid), o.vout])
 	}
+	/// (the harness' chain, not a node's belief: a node told about a reorganisation by
+	/// `transaction_unconfirmed` alone keeps its old best height until the next block)
 	fn height(&self) -> u32 {
-		self.nodes[self.live[0]].best_block_info().1
+		self.nodes[self.live[0]].blocks.lock().unwrap().last().unwrap().1
+	}
+	fn tip_hash(&self) -> bitcoin::BlockHash {
+		self.nodes[self.live[0]].blocks.lock().unwrap().last().unwrap().0.block_hash()
 	}
 	/// The height against which the finality of a broadcast is judged: the best height, or -- until the
 	/// chain has regained it after a reorganisation of its (empty) tip blocks -- the height it had
@@ -283,17 +323,26 @@ impl Net {
 		}
 	}
 
-	fn send(&mut self, src: usize, amt: u64) -> bool {
+	/// `parts` > 1: a multi-part payment all of whose parts go over the one channel -- several pending
+	/// HTLCs with the same payment hash, of the same or different amounts (`vary`) and expiries (`stagger`).
+	fn send(&mut self, src: usize, amt: u64, parts: usize, vary: bool, stagger: u32) -> bool {
 		let dst = 1 - src;
-		let hops = vec![RouteHop {
-			pubkey: self.nodes[dst].node.get_our_node_id(),
-			node_features: NodeFeatures::from_le_bytes(self.nodes[dst].node.node_features().le_flags().to_vec()),
-			short_channel_id: self.scid,
-			channel_features: ChannelFeatures::empty(),
-			fee_msat: amt,
-			cltv_expiry_delta: TEST_FINAL_CLTV,
-			maybe_announced_channel: true,
-		}];
+		let mut paths = Vec::new();
+		let mut total = 0u64;
+		for k in 0..parts.max(1) {
+			let a = if vary && k > 0 { amt * (3 + k as u64) / (5 + k as u64) } else { amt };
+			total += a;
+			paths.push(Path { hops: vec![RouteHop {
+				pubkey: self.nodes[dst].node.get_our_node_id(),
+				node_features: NodeFeatures::from_le_bytes(self.nodes[dst].node.node_features().le_flags().to_vec()),
+				short_channel_id: self.scid,
+				channel_features: ChannelFeatures::empty(),
+				fee_msat: a,
+				cltv_expiry_delta: TEST_FINAL_CLTV + stagger * k as u32,
+				maybe_announced_channel: true,
+			}], blinded_tail: None });
+		}
+		let amt = total;
 		let mut pre = [0u8; 32];
 		let cnt = self.pays.len() as u64 + 1;
 		pre[..8].copy_from_slice(&cnt.to_be_bytes());
@@ -307,7 +356,7 @@ impl Net {
 		};
 		let route_params = RouteParameters::from_payment_params_and_value(
 			PaymentParameters::from_node_id(self.nodes[dst].node.get_our_node_id(), TEST_FINAL_CLTV), amt);
-		let route = Route { paths: vec![Path { hops, blinded_tail: None }], route_params };
+		let route = Route { paths, route_params };
 		let res = self.nodes[src].node.send_payment_with_route(route, hash, RecipientOnionFields::secret_only(secret, amt), PaymentId(hash.0));
 		self.pays.push(Pay { preimage, hash, dst });
 		self.drain_msgs();
@@ -332,7 +381,7 @@ impl Net {
 			"pay" => {
 				let src = op["from"].as_u64().unwrap_or(0) as usize % 2;
 				let amt = self.resolve_amount(&op["amt"], rng);
-				did = self.send(src, amt);
+				did = self.send(src, amt, op["parts"].as_u64().unwrap_or(1) as usize, op["vary"].as_bool().unwrap_or(false), op["stagger"].as_u64().unwrap_or(0) as u32);
 				if op["deliver"].as_bool().unwrap_or(true) { self.deliver(usize::MAX); }
 			},
 			"claim" | "fail" => {
@@ -455,6 +504,7 @@ impl Net {
 		for (i, o) in tx.output.iter().enumerate() {
 			self.outs.insert(OutPoint { txid, vout: i as u32 }, o.clone());
 		}
+		self.txmap.entry(txid).or_insert_with(|| tx.clone());
 	}
 
 	fn verify(&self, tx: &Transaction) -> bool {
@@ -501,7 +551,8 @@ impl Net {
 				wal.push(ws.as_ref().map(|s| self.outs.get(&i.previous_output).map(|o| &o.script_pubkey == s).unwrap_or(false)).unwrap_or(false));
 				ins.push(self.opj(&i.previous_output));
 			}
-			self.ev(json!({"ev":"bcast","by":by,"tx":id,"dup":true,"h":h,"kind":kind,"ins":ins,"wal":wal,"outs":[],"fee":0,"weight":0,"inval":0,"feerate":0,"pfeerate":0,"locktime":0,"valid":true,"final":true,"sweep":false}));
+			self.next_shape = None;
+			self.ev(json!({"ev":"bcast","by":by,"tx":id,"dup":true,"h":h,"kind":kind,"ins":ins,"wal":wal,"outs":[],"fee":0,"weight":0,"inval":0,"feerate":0,"pfeerate":0,"locktime":0,"valid":true,"final":true,"sweep":false,"shape":{"ins":[],"outs":[]}}));
 			return;
 		}
 		self.register_outputs(&tx);
@@ -524,22 +575,26 @@ impl Net {
 		}
 		let pfeerate = if pfee > 0 { pfee as u64 * 1000 / pweight } else { 0 };
 		let ws = if by < 2 { Some(self.wallet_script(by)) } else if by == AGENT { Some(self.wallet_script(self.agent_owner)) } else { None };
+		// (the cheater's own inputs and outputs: its node's wallet or the key the engine signs its
+		//  hand-made transactions' fee inputs with)
+		let hs = if by == AGENT { Some(harness_script()) } else { None };
+		let mine = |s: &ScriptBuf| ws.as_ref().map(|w| w == s).unwrap_or(false) || hs.as_ref().map(|w| w == s).unwrap_or(false);
 		let mut ins = Vec::new();
 		let mut wal = Vec::new();
 		for i in tx.input.iter() {
-			let w = ws.as_ref().map(|s| self.outs.get(&i.previous_output).map(|o| &o.script_pubkey == s).unwrap_or(false)).unwrap_or(false);
+			let w = self.outs.get(&i.previous_output).map(|o| mine(&o.script_pubkey)).unwrap_or(false);
 			wal.push(w);
 			ins.push(self.opj(&i.previous_output));
 		}
 		let outs: Vec<Value> = tx.output.iter().map(|o| {
-			let w = ws.as_ref().map(|s| &o.script_pubkey == s).unwrap_or(false);
-			json!({"amt": o.value.to_sat(), "wal": w})
+			json!({"amt": o.value.to_sat(), "wal": mine(&o.script_pubkey)})
 		}).collect();
+		let shape = self.next_shape.take().unwrap_or(json!({"ins":[],"outs":[]}));
 		// does it re-spend an output whose spend is already buried? (counted, not judged)
 		let stale = tx.input.iter().any(|i| self.spent.get(&i.previous_output).map(|t| *t != txid && self.conf.get(t).map(|c| *c + 6 <= h + 1).unwrap_or(false)).unwrap_or(false));
 		let repl: Vec<usize> = self.mempool.iter().filter(|m| m.tx.input.iter().any(|i| tx.input.iter().any(|j| j.previous_output == i.previous_output))).map(|m| m.id).collect();
 		self.ev(json!({"ev":"bcast","by":by,"tx":id,"dup":false,"h":h,"kind":kind,"ins":ins,"wal":wal,"outs":outs,"repl":repl,"stale":stale,
-			"fee":fee,"weight":weight,"inval":inval,"feerate":feerate,"pfeerate":pfeerate,"locktime":tx.lock_time.to_consensus_u32(),"valid":valid,"final":fin,"sweep":false}));
+			"fee":fee,"weight":weight,"inval":inval,"feerate":feerate,"pfeerate":pfeerate,"locktime":tx.lock_time.to_consensus_u32(),"valid":valid,"final":fin,"sweep":false,"shape":shape}));
 		self.mempool.push(MemTx { tx, txid, id, by, valid, fee, weight, sweep: false });
 	}
 
@@ -614,9 +669,15 @@ impl Net {
 		let evs = got.into_inner();
 		for e in evs {
 			if let Event::BumpTransaction(b) = e {
-				if let BumpTransactionEvent::HTLCResolution { .. } = &b {
-					let node = &self.nodes[owner];
-					let _ = catch_unwind(AssertUnwindSafe(|| node.bump_tx_handler.handle_event(&b)));
+				if let BumpTransactionEvent::HTLCResolution { htlc_descriptors, tx_lock_time, .. } = &b {
+					for d in htlc_descriptors.iter() {
+						self.agent_descs.retain(|x| x.0.outpoint() != d.outpoint());
+						self.agent_descs.push((d.clone(), *tx_lock_time));
+					}
+					if !self.agent_manual {
+						let node = &self.nodes[owner];
+						let _ = catch_unwind(AssertUnwindSafe(|| node.bump_tx_handler.handle_event(&b)));
+					}
 				}
 			}
 		}
@@ -690,7 +751,9 @@ impl Net {
 					let ins: Vec<Value> = tx.input.iter().map(|i| self.opj(&i.previous_output)).collect();
 					self.ev(json!({"ev":"sweep","node":node,"h":h,"tx":id,"op":opj,"ok":true,"ins":ins,"out_amt":outval,"fee":inval as i64 - outval as i64,"valid":valid,"final":fin}));
 					let weight = tx.weight().to_wu();
-					self.mempool.push(MemTx { tx, txid, id, by: node, valid, fee: inval as i64 - outval as i64, weight, sweep: true });
+					if !self.conf.contains_key(&txid) && !self.mempool.iter().any(|m| m.txid == txid) {
+						self.mempool.push(MemTx { tx, txid, id, by: node, valid, fee: inval as i64 - outval as i64, weight, sweep: true });
+					}
 				},
 				_ => {
 					self.ev(json!({"ev":"sweep","node":node,"h":h,"tx":0,"op":opj,"ok":false,"ins":[],"out_amt":0,"fee":0,"valid":false,"final":false}));
@@ -710,6 +773,17 @@ impl Net {
 	fn checkpoint(&mut self, block_txs: Option<Vec<usize>>, force: bool) {
 		let mark = self.log.len();
 		for i in self.live.clone() { self.collect(i); }
+		if self.rb_tick > 0 && block_txs.is_some() && self.jump_from.is_none() {
+			// Once the network has forgotten claims in a reorganisation, the application's periodic
+			// `rebroadcast_pending_claims` ("ensuring reliability if broadcasting fails"; the background
+			// processor calls it every 30 seconds) runs after each of the next ten blocks.
+			self.rb_tick -= 1;
+			for i in self.live.clone() {
+				self.ev(json!({"ev":"rebroadcast","node":i}));
+				self.nodes[i].chain_monitor.chain_monitor.rebroadcast_pending_claims();
+				self.collect(i);
+			}
+		}
 		self.collect_agent();
 		self.try_sweeps();
 		for i in self.live.clone() {
@@ -751,7 +825,9 @@ impl Net {
 		for i in self.live.clone() {
 			self.ev(json!({"ev":"bal","node":i,"h":h,"items":bals[i]}));
 		}
-		self.ev(json!({"ev":"state","h":h}));
+		// (between the disconnection of blocks and the connection of the new tip a reorganisation is still
+		//  being processed: the node's obligations are judged once the new tip is there)
+		if !self.in_reorg { self.ev(json!({"ev":"state","h":h})); }
 		self.last_state = sig;
 	}
 
@@ -776,6 +852,7 @@ impl Net {
 			}
 		}
 		self.jump_from = Some(h0 + 1);
+		self.in_reorg = false;
 		self.checkpoint(Some(Vec::new()), false);
 		self.jump_from = None;
 		true
@@ -842,10 +919,10 @@ impl Net {
 
 	fn connect(&mut self, txs: Vec<Transaction>) {
 		let h_next = self.height() + 1;
-		let prev = self.nodes[self.live[0]].best_block_hash();
+		let prev = self.tip_hash();
 		// a confirmed commitment transaction is described once, when it confirms
 		for tx in txs.iter() {
-			if tx.input.iter().any(|i| i.previous_output == self.funding) && !self.commit_logged {
+			if tx.input.iter().any(|i| i.previous_output == self.funding) && self.commit_logged != Some(tx.compute_txid()) {
 				let txid = tx.compute_txid();
 				let mut found = None;
 				for o in 0..2 {
@@ -868,7 +945,7 @@ impl Net {
 					let id = self.txi(&txid);
 					self.ev(json!({"ev":"commit_unknown","tx":id}));
 				}
-				self.commit_logged = true;
+				self.commit_logged = Some(txid);
 			}
 		}
 		// (blocks mined after a reorganisation differ from the ones they replace)
@@ -906,6 +983,7 @@ impl Net {
 			let lg = self.nodes[owner].logger;
 			let _ = catch_unwind(AssertUnwindSafe(|| { a.block_connected(&block.header, &txdata, h_next, bc, fe, lg); }));
 		}
+		self.in_reorg = false;
 		self.checkpoint(Some(ids), false);
 	}
 
@@ -1031,10 +1109,40 @@ impl Net {
 					}
 					self.fork += 1;
 					self.hwm = self.hwm.max(h);
-					self.ev(json!({"ev":"rewind","from":h,"h":h - d}));
+					self.ev(json!({"ev":"rewind","from":h,"h":h - d,"unconf":[],"evicted":[],"keep":true}));
 					self.checkpoint(None, true);
 					for _ in 0..op["add"].as_u64().unwrap_or(1).max(1) { self.connect(Vec::new()); }
 				}
+			},
+			"cheat" => {
+				// a hand-made second-stage transaction of the cheater (anchor channels)
+				// (position k of `ins` / `outs` refers to the k-th entry of `pays`: keep the positions of
+				//  payments that have no output in this commitment)
+				let vs: Option<Vec<u32>> = if op["pays"].is_array() {
+					self.confirmed_commit.map(|(o, k)| op["pays"].as_array().unwrap().iter().map(|x| {
+						let p = self.pays.get(x.as_u64().unwrap_or(u64::MAX) as usize);
+						p.and_then(|p| self.commits[o][k].ct.nondust_htlcs().iter().find(|h| h.payment_hash == p.hash).and_then(|h| h.transaction_output_index)).unwrap_or(u32::MAX)
+					}).collect())
+				} else { htlc_vouts(self, &op["htlcs"]) };
+				did = match vs { Some(vs) => self.cheat_tx(&vs, &op["ins"], &op["outs"]), None => false };
+			},
+			"unwind" => {
+				// the chain is taken back below a transaction of the run
+				let agent_commit = self.confirmed_commit.map(|(o, k)| self.commits[o][k].txid);
+				let target = op["target"].as_str().unwrap_or("commit");
+				let hts: Vec<u32> = match target {
+					"commit" => agent_commit.and_then(|t| self.conf.get(&t).cloned()).into_iter().collect(),
+					"stage2" => self.mined.iter().filter(|m| m.by == AGENT && Some(m.txid) != agent_commit).filter_map(|m| self.conf.get(&m.txid).cloned()).collect(),
+					"tip" => vec![self.height() + 1],
+					_ => self.mined.iter().filter(|m| m.by < 2 && !m.sweep && Some(m.txid) != agent_commit).filter_map(|m| self.conf.get(&m.txid).cloned()).collect(),
+				};
+				did = match hts.iter().min() {
+					Some(m) => {
+						let to = (*m as i64 - 1 - op["extra"].as_i64().unwrap_or(0)).max(self.open_h as i64) as u32;
+						self.unwind(to, op["keep"].as_bool().unwrap_or(false))
+					},
+					None => false,
+				};
 			},
 			"style" => {
 				let i = op["node"].as_u64().unwrap_or(0) as usize % 2;
@@ -1055,6 +1163,211 @@ impl Net {
 		}
 		let _ = rng;
 		if did { self.executed += 1; } else { self.skipped += 1; }
+	}
+
+	/// Assemble, sign and announce one second-stage transaction of the cheater: `ins` / `outs` give for
+	/// every input / output the position (1-based) in `vouts` of the HTLC it belongs to, 0 = the
+	/// cheater's own coin / output.  HTLCs that cannot be spent now (no descriptor yet, already spent, a
+	/// different nLockTime than the first) are left out together with their slots.
+	fn cheat_tx(&mut self, vouts: &Vec<u32>, ins: &Value, outs: &Value) -> bool {
+		let (o, k) = match self.confirmed_commit { Some(x) => x, None => return false };
+		if self.agent.is_none() { return false; }
+		let ctxid = self.commits[o][k].txid;
+		let secp = Secp256k1::new();
+		let mut ins: Vec<usize> = ins.as_array().map(|a| a.iter().map(|x| x.as_u64().unwrap_or(0) as usize).collect()).unwrap_or_default();
+		let mut outs: Vec<usize> = outs.as_array().map(|a| a.iter().map(|x| x.as_u64().unwrap_or(0) as usize).collect()).unwrap_or_default();
+		let mut descs: Vec<Option<(HTLCDescriptor, LockTime)>> = Vec::new();
+		let mut lt: Option<LockTime> = None;
+		for v in vouts.iter() {
+			let op = OutPoint { txid: ctxid, vout: *v };
+			let mut d = self.agent_descs.iter().find(|d| d.0.outpoint() == op).cloned();
+			if self.spent.contains_key(&op) || descs.iter().any(|x: &Option<(HTLCDescriptor, LockTime)>| x.as_ref().map(|y| y.0.outpoint() == op).unwrap_or(false)) { d = None; }
+			if let Some(x) = d.as_ref() {
+				if lt.is_none() { lt = Some(x.1); }
+				if lt != Some(x.1) { d = None; }
+			}
+			descs.push(d);
+		}
+		// drop the slots of the HTLCs that are left out
+		for (pos, d) in descs.iter().enumerate() {
+			if d.is_none() {
+				let tag = pos + 1;
+				let (mut i, mut rm) = (0, Vec::new());
+				while i < ins.len().max(outs.len()) {
+					if ins.get(i) == Some(&tag) || outs.get(i) == Some(&tag) { rm.push(i); }
+					i += 1;
+				}
+				for i in rm.into_iter().rev() {
+					if i < ins.len() { ins.remove(i); }
+					if i < outs.len() { outs.remove(i); }
+				}
+			}
+		}
+		if !ins.iter().any(|x| *x > 0) { return false; }
+		// SIGHASH_SINGLE: the output at the position of an HTLC input is that HTLC's output
+		for (i, x) in ins.iter().enumerate() { if *x > 0 && outs.get(i) != Some(x) { return false; } }
+		for (i, x) in outs.iter().enumerate() { if *x > 0 && ins.get(i) != Some(x) { return false; } }
+		let n_own_in = ins.iter().filter(|x| **x == 0).count();
+		if self.fee_next + n_own_in > self.fee_utxos.len() { return false; }
+		let mut tx = Transaction { version: if self.chan_type == "zerofee" { Version::non_standard(3) } else { Version::TWO },
+			lock_time: lt.unwrap_or(LockTime::ZERO), input: Vec::new(), output: Vec::new() };
+		let mut own_in: Vec<(usize, TxOut)> = Vec::new();
+		for (i, x) in ins.iter().enumerate() {
+			if *x > 0 {
+				tx.input.push(descs[*x - 1].as_ref().unwrap().0.unsigned_tx_input());
+			} else {
+				let (op, o) = self.fee_utxos[self.fee_next].clone();
+				self.fee_next += 1;
+				tx.input.push(TxIn { previous_output: op, script_sig: ScriptBuf::new(), sequence: Sequence::ENABLE_RBF_NO_LOCKTIME, witness: Witness::new() });
+				own_in.push((i, o));
+			}
+		}
+		let own_total: u64 = own_in.iter().map(|x| x.1.value.to_sat()).sum();
+		let n_own_out = outs.iter().filter(|x| **x == 0).count() as u64;
+		let each = if n_own_out > 0 { own_total.saturating_sub(1_000) / n_own_out } else { 0 };
+		for x in outs.iter() {
+			if *x > 0 { tx.output.push(descs[*x - 1].as_ref().unwrap().0.tx_output(&secp)); }
+			else { tx.output.push(TxOut { value: Amount::from_sat(each), script_pubkey: harness_script() }); }
+		}
+		let owner = self.agent_owner;
+		for (i, x) in ins.iter().enumerate() {
+			if *x == 0 { continue; }
+			let d = &descs[*x - 1].as_ref().unwrap().0;
+			let signer = self.nodes[owner].keys_manager.derive_channel_signer(d.channel_derivation_parameters.keys_id);
+			let sig = match signer.sign_holder_htlc_transaction(&tx, i, d, &secp) { Ok(s) => s, Err(_) => return false };
+			let ws = d.witness_script(&secp);
+			tx.input[i].witness = d.tx_input_witness(&sig, &ws);
+		}
+		let sk = harness_key();
+		let pk = sk.public_key(&secp);
+		for (i, o) in own_in.iter() {
+			let sighash = SighashCache::new(&tx).p2wpkh_signature_hash(*i, &o.script_pubkey, o.value, EcdsaSighashType::All).unwrap();
+			let signature = secp.sign_ecdsa(&Message::from_digest(sighash.to_byte_array()), &sk);
+			let bsig = bitcoin::ecdsa::Signature { signature, sighash_type: EcdsaSighashType::All };
+			tx.input[*i].witness = Witness::p2wpkh(&bsig, &pk);
+		}
+		self.flush_idle();
+		self.next_shape = Some(json!({"ins": ins, "outs": outs}));
+		self.handle_bcast(AGENT, tx, "AgentHTLC".into());
+		true
+	}
+
+	/// Take the chain back to height `to`.  Transactions confirmed above it are unconfirmed again: those of
+	/// the cheater / the harness (and sweeps, which the application would simply announce again) go
+	/// back to the mempool; with `keep` the claims of the nodes under test do so as well, otherwise the
+	/// network forgets every claim that hangs on a transaction which left the chain (no mempool is obliged
+	/// to keep the descendants of a reorganised-out transaction).
+	fn unwind(&mut self, to: u32, keep: bool) -> bool {
+		let h = self.height();
+		// ANTI_REORG_DELAY is a library-wide security assumption ("if a reorg deeper than this number of
+		// blocks occurs ... claims made by and balances exposed by a ChannelMonitor may be incorrect"):
+		// no transaction of the run with ANTI_REORG_DELAY or more confirmations is ever unconfirmed
+		// (counted on the longest chain the nodes have seen so far)
+		let top = self.hwm.max(h);
+		let mut to = to.max(top.saturating_sub(6));
+		for (t, c) in self.conf.iter() {
+			if self.ids.contains_key(t) && *c > to && top + 1 - *c >= 6 { to = to.max(*c); }
+		}
+		// ... and the chain is not taken back below an HTLC expiry it had reached (a claim that was final
+		// when it was made stays final)
+		if let Some((o, k)) = self.confirmed_commit {
+			for x in self.commits[o][k].ct.nondust_htlcs().iter() {
+				if x.cltv_expiry <= h + 1 { to = to.max(x.cltv_expiry); }
+			}
+		}
+		if to >= h || to < self.open_h { return false; }
+		let d = h - to;
+		self.flush_idle();
+		for i in self.live.clone() {
+			disconnect_blocks(&self.nodes[i], d);
+			// a client that reports unconfirmed transactions one by one (`transaction_unconfirmed`)
+			// names the new tip afterwards (Confirm: "best_block_updated ... whenever a new chain tip
+			// becomes available")
+			if matches!(*self.nodes[i].connect_style.borrow(), ConnectStyle::BestBlockFirstReorgsOnlyTip | ConnectStyle::TransactionsFirstReorgsOnlyTip) {
+				let prev = self.nodes[i].blocks.lock().unwrap().last().unwrap().clone();
+				self.nodes[i].chain_monitor.chain_monitor.best_block_updated(&prev.0.header, prev.1);
+				self.nodes[i].node.best_block_updated(&prev.0.header, prev.1);
+			}
+		}
+		for i in self.frozen.clone() {
+			for _ in 0..d { self.nodes[i].blocks.lock().unwrap().pop(); }
+		}
+		let tip = self.tip_hash();
+		if let Some(a) = self.agent.as_ref() {
+			let owner = self.agent_owner;
+			let (bc, fe, lg) = (self.agent_bc.unwrap(), self.nodes[owner].fee_estimator, self.nodes[owner].logger);
+			let _ = catch_unwind(AssertUnwindSafe(|| { a.blocks_disconnected(BlockLocator::new(tip, to), bc, fe, lg); }));
+		}
+		self.fork += 1;
+		self.hwm = self.hwm.max(h);
+		// the harness' view of the chain
+		let gone: HashSet<Txid> = self.conf.iter().filter(|(t, c)| **c > to && self.ids.contains_key(*t)).map(|(t, _)| *t).collect();
+		for t in gone.iter() { self.conf.remove(t); }
+		// (claims that had lost an input to a transaction which now left the chain: the network dropped
+		//  them when that transaction confirmed and does not bring them back)
+		let freed: HashSet<OutPoint> = self.spent.iter().filter(|(_, t)| gone.contains(*t)).map(|(o, _)| *o).collect();
+		self.spent.retain(|_, t| !gone.contains(t));
+		let mut back: Vec<MemTx> = Vec::new();
+		let mut k = 0;
+		while k < self.mined.len() {
+			if gone.contains(&self.mined[k].txid) { back.push(self.mined.remove(k)); } else { k += 1; }
+		}
+		back.append(&mut self.mempool);
+		let mut dead: HashSet<Txid> = HashSet::new();
+		if !keep {
+			loop {
+				let mut more = false;
+				for m in back.iter() {
+					if m.by >= 2 || m.sweep || dead.contains(&m.txid) { continue; }
+					if m.tx.input.iter().any(|i| gone.contains(&i.previous_output.txid) || dead.contains(&i.previous_output.txid)
+						|| (freed.contains(&i.previous_output) && !gone.contains(&m.txid))) {
+						dead.insert(m.txid);
+						more = true;
+					}
+				}
+				if !more { break; }
+			}
+		}
+		let mut unconf: Vec<usize> = gone.iter().map(|t| self.ids[t]).collect();
+		unconf.sort();
+		let mut evicted: Vec<usize> = dead.iter().map(|t| self.ids[t]).collect();
+		evicted.sort();
+		self.mempool = back.into_iter().filter(|m| !dead.contains(&m.txid)).collect();
+		// the wallets: coins made by transactions that left the chain are gone, coins they spent are back
+		for i in 0..2 {
+			let ws = self.wallet_script(i);
+			for t in gone.iter() {
+				let tx = match self.txmap.get(t) { Some(x) => x.clone(), None => continue };
+				for (v, o) in tx.output.iter().enumerate() {
+					if o.script_pubkey == ws { self.nodes[i].wallet_source.remove_utxo(OutPoint { txid: *t, vout: v as u32 }); }
+				}
+				for inp in tx.input.iter() {
+					let po = inp.previous_output;
+					let is_mine = self.outs.get(&po).map(|o| o.script_pubkey == ws).unwrap_or(false);
+					if is_mine && self.conf.contains_key(&po.txid) && !self.spent.contains_key(&po) {
+						if let Some(ptx) = self.txmap.get(&po.txid) {
+							self.nodes[i].wallet_source.remove_utxo(po);
+							self.nodes[i].wallet_source.add_utxo(ptx.clone(), po.vout);
+						}
+					}
+				}
+			}
+		}
+		// reports of outputs that are not on the chain any more are void (the node reports them again)
+		let conf = &self.conf;
+		self.pending.retain(|p| {
+			let op = match &p.desc {
+				SpendableOutputDescriptor::StaticOutput { outpoint, .. } => outpoint.into_bitcoin_outpoint(),
+				SpendableOutputDescriptor::DelayedPaymentOutput(x) => x.outpoint.into_bitcoin_outpoint(),
+				SpendableOutputDescriptor::StaticPaymentOutput(x) => x.outpoint.into_bitcoin_outpoint(),
+			};
+			conf.contains_key(&op.txid)
+		});
+		if !evicted.is_empty() { self.rb_tick = 10; }
+		self.in_reorg = true;
+		self.ev(json!({"ev":"rewind","from":h,"h":to,"unconf":unconf,"evicted":evicted,"keep":keep}));
+		self.checkpoint(None, true);
+		true
 	}
 
 	fn could_ever_confirm(&self, m: &MemTx) -> bool {
@@ -1121,6 +1434,7 @@ impl Net {
 		let delays: Vec<u64> = (0..2).map(|i| self.nodes[i].node.list_channels().get(0).and_then(|c| c.force_close_spend_delay).unwrap_or(0) as u64).collect();
 		let styles: Vec<String> = (0..2).map(|i| format!("{:?}", *self.nodes[i].connect_style.borrow())).collect();
 		let h0 = self.nodes[0].best_block_info().1;
+		self.open_h = h0;
 		let value = self.outs.get(&self.funding).map(|o| o.value.to_sat()).unwrap_or(0);
 		// what the fee estimators say when the channel goes to chain
 		if let Some(a) = c["est"].as_array() {
@@ -1164,7 +1478,9 @@ impl Net {
 				let copy = match self.monitor_copy(owner, num) { Some(m) => m, None => return false };
 				let txs = copy.unsafe_get_latest_holder_commitment_txn(&self.nodes[owner].logger);
 				if (num as usize) >= self.commits[owner].len() || txs[0].compute_txid() != self.commits[owner][num as usize].txid { return false; }
-				if prev { self.live = vec![1 - owner]; self.frozen = vec![owner]; } else { self.live = vec![0, 1]; self.frozen = vec![]; }
+				// (`owner_live`: the holder of the previous, still unrevoked commitment is a node under test
+				//  too -- its own earlier broadcast confirms after it has moved on to the next state)
+				if prev && !c["owner_live"].as_bool().unwrap_or(false) { self.live = vec![1 - owner]; self.frozen = vec![owner]; } else { self.live = vec![0, 1]; self.frozen = vec![]; }
 				self.disconnect();
 				self.ev(json!({"ev":"open","kind": if prev {"cp_previous"} else {"cp_current"},"chan_type":self.chan_type,"value":value,"live":self.live,"owner":owner,"k":num,"n_revoked":self.revoked[owner],
 					"delays":delays,"styles":styles,"h":h0,"anti_reorg":6,"est":est}));
@@ -1180,6 +1496,11 @@ impl Net {
 					"delays":delays,"styles":styles,"h":h0,"anti_reorg":6,"est":est}));
 				let peer = self.nodes[1 - owner].node.get_our_node_id();
 				if self.nodes[owner].node.force_close_broadcasting_latest_txn(&self.chan_id, &peer, "closing".to_string()).is_err() { return false; }
+				if c["both"].as_bool().unwrap_or(false) {
+					// both sides go to chain at the same time: two competing commitment transactions
+					let me = self.nodes[owner].node.get_our_node_id();
+					let _ = self.nodes[1 - owner].node.force_close_broadcasting_latest_txn(&self.chan_id, &me, "closing".to_string());
+				}
 				if deliver_error {
 					self.drain_msgs();
 					self.deliver(usize::MAX);
@@ -1279,8 +1600,17 @@ fn build_net(run: u64, cfg: &Value) -> Net {
 	for (i, n) in nodes.iter().enumerate() {
 		*n.connect_style.borrow_mut() = style_of(cfg["style"][i].as_u64().unwrap_or(3) as usize);
 	}
+	let mut fee_utxos = Vec::new();
 	if chan_type != "static" {
 		let _ = provide_utxo_reserves(&nodes, 4, bitcoin::Amount::ONE_BTC);
+		// coins of the would-be cheater outside its node's wallet (fee inputs of hand-made HTLC transactions)
+		let hs = harness_script();
+		let tx = Transaction { version: Version::TWO, lock_time: LockTime::ZERO, input: vec![TxIn { ..Default::default() }],
+			output: (0..16).map(|k| TxOut { value: Amount::from_sat(40_000 + 1_000 * k), script_pubkey: hs.clone() }).collect() };
+		let block = create_dummy_block(nodes[0].best_block_hash(), nodes[0].best_block_info().1 + 1, vec![tx.clone()]);
+		for n in nodes.iter() { connect_block(n, &block); }
+		let txid = tx.compute_txid();
+		for (k, o) in tx.output.iter().enumerate() { fee_utxos.push((OutPoint { txid, vout: k as u32 }, o.clone())); }
 	}
 	let (_, _, chan_id, ftx) = create_announced_chan_between_nodes_with_value(&nodes, 0, 1, value, push);
 	let scid = nodes[0].node.list_channels().iter().find(|c| c.channel_id == chan_id).unwrap().short_channel_id.unwrap();
@@ -1296,8 +1626,10 @@ fn build_net(run: u64, cfg: &Value) -> Net {
 		holder_num: [0, 0], revoked: [0, 0], snaps: [HashMap::new(), HashMap::new()], known: [HashSet::new(), HashSet::new()], mark: None,
 		outs: HashMap::new(), conf: HashMap::new(), spent: HashMap::new(), ids: HashMap::new(), mempool: Vec::new(),
 		funding: OutPoint { txid: ftxid, vout }, live: vec![0, 1], frozen: vec![], agent: None, agent_owner: 0, agent_bc: None,
-		commits: [Vec::new(), Vec::new()], commit_logged: false, confirmed_commit: None, pending: Vec::new(), last_state: String::new(),
+		commits: [Vec::new(), Vec::new()], commit_logged: None, confirmed_commit: None, pending: Vec::new(), last_state: String::new(),
 		idle_from: None, executed: 0, skipped: 0, swept: [0, 0], refused: [false, false], jump_from: None, mined: Vec::new(), fork: 0, hwm: 0,
+		agent_descs: Vec::new(), agent_manual: cfg["agent_manual"].as_bool().unwrap_or(false), fee_utxos, fee_next: 0, next_shape: None,
+		txmap: HashMap::new(), open_h: 0, rb_tick: 0, in_reorg: false,
 	};
 	net.drain_msgs();
 	net.deliver(usize::MAX);
@@ -1514,9 +1846,286 @@ fn csv_race_script(rng: &mut StdRng) -> Value {
 		"history":history,"close":close,"chain":chain,"family":"csv_race"})
 }
 
+/// A shape for a second-stage transaction over `n` HTLCs (positions 1..=n of the `pays` list): the HTLC
+/// inputs in any order, up to two inputs of the cheater's own anywhere, an output of its own at the
+/// position of each of those (optional when nothing follows), up to two more outputs at the end.
+fn random_shape(rng: &mut StdRng, n: usize) -> (Vec<usize>, Vec<usize>) {
+	let mut ins: Vec<usize> = (1..=n).collect();
+	for i in (1..ins.len()).rev() { ins.swap(i, rng.gen_range(0..=i)); }
+	let own = [0usize, 1, 1, 1, 2][rng.gen_range(0..5)];
+	for _ in 0..own { let at = rng.gen_range(0..=ins.len()); ins.insert(at, 0); }
+	let last_htlc = ins.iter().rposition(|x| *x > 0).unwrap_or(0);
+	let mut outs: Vec<usize> = Vec::new();
+	for (i, x) in ins.iter().enumerate() {
+		if *x > 0 || i < last_htlc { outs.push(*x); }
+		else if rng.gen_bool(0.4) && outs.len() == i { outs.push(0); }
+	}
+	if outs.len() >= ins.len() { for _ in 0..[0usize, 0, 0, 1, 2][rng.gen_range(0..5)] { outs.push(0); } }
+	(ins, outs)
+}
+
+/// Revoked anchor-channel commitments whose HTLC outputs the cheater spends with hand-made second-stage
+/// transactions of every shape SIGHASH_SINGLE|ANYONECANPAY allows: one HTLC or several per transaction,
+/// only a subset, its own inputs before / between / after the HTLC inputs, change outputs or none,
+/// HTLC-success first, HTLC-timeout transactions after the expiry.
+fn shape_script(rng: &mut StdRng) -> Value {
+	let chan_type = ["anchors", "zerofee"][rng.gen_range(0..2)];
+	let owner = rng.gen_range(0..2usize);
+	let victim = 1 - owner;
+	let mut history: Vec<Value> = Vec::new();
+	let npay = rng.gen_range(2..=4usize);
+	let (mut succ, mut tout): (Vec<usize>, Vec<usize>) = (Vec::new(), Vec::new());
+	let amts = ["big", "big", "small", "small", "edge"];
+	for k in 0..npay {
+		let to_owner = rng.gen_bool(0.6);
+		history.push(json!({"op":"pay","from": if to_owner { victim } else { owner },"amt":amts[rng.gen_range(0..amts.len())]}));
+		if to_owner { succ.push(k); } else { tout.push(k); }
+	}
+	let mut known: Vec<usize> = Vec::new();
+	for k in succ.iter() {
+		if rng.gen_bool(0.85) { history.push(json!({"op":"claim","pay":k,"deliver":false})); known.push(*k); }
+	}
+	history.push(json!({"op":"mark","owner":owner}));
+	history.push(json!({"op":"deliver_all"}));
+	history.push(json!({"op":"pay","from":rng.gen_range(0..2),"amt":"small"}));
+	let mut chain: Vec<Value> = vec![json!({"op":"mine","who":[AGENT],"agent_pays":[]})];
+	let round = |chain: &mut Vec<Value>, rng: &mut StdRng, pool: &mut Vec<usize>| {
+		if pool.is_empty() { return; }
+		let take = rng.gen_range(1..=pool.len());
+		let mut sel: Vec<usize> = Vec::new();
+		for _ in 0..take { sel.push(pool.remove(rng.gen_range(0..pool.len()))); }
+		let (ins, outs) = random_shape(rng, sel.len());
+		chain.push(json!({"op":"cheat","pays":sel,"ins":ins,"outs":outs}));
+		let r = rng.gen_range(0..100);
+		let who = if r < 70 { json!([AGENT]) } else { json!([AGENT, victim]) };
+		chain.push(json!({"op":"mine","who":who,"agent_pays":sel,"prefer": if rng.gen_bool(0.7) {"new"} else {"old"}}));
+	};
+	let extras = |chain: &mut Vec<Value>, rng: &mut StdRng| {
+		let r = rng.gen_range(0..100);
+		if r < 15 { chain.push(json!({"op":"reload","node":victim})); }
+		else if r < 25 { chain.push(json!({"op":"rebroadcast","node":victim})); }
+		else if r < 40 { chain.push(json!({"op":"mine","who":[victim],"prefer": if rng.gen_bool(0.5) {"new"} else {"old"}})); }
+		else if r < 50 { chain.push(json!({"op":"mine","who":"none","n":rng.gen_range(1..8)})); }
+	};
+	for _ in 0..rng.gen_range(1..=2) {
+		round(&mut chain, rng, &mut known);
+		extras(&mut chain, rng);
+	}
+	if !tout.is_empty() && rng.gen_bool(0.8) {
+		chain.push(json!({"op":"to_expiry","htlc":0,"who": if rng.gen_bool(0.5) { json!("none") } else { json!([victim]) },"agent_pays":[],"off":rng.gen_range(0..2)}));
+		chain.push(json!({"op":"mine","who":"none","n":1}));
+		for _ in 0..rng.gen_range(1..=2) {
+			round(&mut chain, rng, &mut tout);
+			extras(&mut chain, rng);
+		}
+	}
+	chain.push(json!({"op":"settle"}));
+	json!({"cfg":{"chan_type":chan_type,"value":1_000_000,"push":([400_000_000u64, 500_000_000][rng.gen_range(0..2)]),
+		"feerate":([253u32, 253, 1000][rng.gen_range(0..3)]),"style":[rng.gen_range(0..11), rng.gen_range(0..11)],"agent_manual":true},
+		"history":history,"close":{"kind":"revoked","owner":owner,"k":"mark"},"chain":chain,"family":"shapes"})
+}
+
+/// A revoked commitment (with second-stage transactions and justice claims, confirmed or not) that is
+/// reorganised out of the chain -- to just below it or deeper, after one or many confirmations -- and
+/// confirms again, in the next block or later; the network keeps or forgets the victim's claims.
+fn unwind_script(rng: &mut StdRng) -> Value {
+	let types = ["static", "anchors", "zerofee"];
+	let owner = rng.gen_range(0..2usize);
+	let victim = 1 - owner;
+	let (history, _) = random_history(rng, true, owner);
+	let mut chain: Vec<Value> = Vec::new();
+	let first = if rng.gen_bool(0.5) { json!([]) } else { agent_sel(rng) };
+	chain.push(json!({"op":"mine","who":[AGENT],"agent_htlcs":first}));
+	if rng.gen_bool(0.4) { chain.push(json!({"op":"mine","who":[victim],"prefer": if rng.gen_bool(0.5) {"new"} else {"old"}})); }
+	if rng.gen_bool(0.5) { chain.push(json!({"op":"mine","who":"none","n":rng.gen_range(1..4)})); }
+	if rng.gen_bool(0.4) {
+		chain.push(json!({"op":"mine","who":[AGENT],"agent_htlcs":agent_sel(rng)}));
+		if rng.gen_bool(0.5) { chain.push(json!({"op":"mine","who":[victim]})); }
+		if rng.gen_bool(0.3) { chain.push(json!({"op":"mine","who":"none","n":rng.gen_range(1..6)})); }
+	}
+	for round in 0..2 {
+		let r = rng.gen_range(0..100);
+		let target = if r < 60 || round == 1 { "commit" } else if r < 80 { "stage2" } else { "claim" };
+		let extra = if rng.gen_bool(0.85) { rng.gen_range(0..3) } else { rng.gen_range(3..9) };
+		chain.push(json!({"op":"unwind","target":target,"extra":extra,"keep":rng.gen_bool(0.35)}));
+		let r = rng.gen_range(0..100);
+		if r < 15 { chain.push(json!({"op":"reload","node":victim})); }
+		else if r < 30 { chain.push(json!({"op":"rebroadcast","node":victim})); }
+		else if r < 36 { chain.push(json!({"op":"style","node":victim,"v":rng.gen_range(0..11)})); }
+		if rng.gen_bool(0.5) { chain.push(json!({"op":"mine","who":"none","n":rng.gen_range(1..4)})); }
+		let who = if rng.gen_bool(0.7) { json!([AGENT]) } else { json!([AGENT, victim]) };
+		chain.push(json!({"op":"mine","who":who,"agent_htlcs": if rng.gen_bool(0.5) { json!([]) } else { agent_sel(rng) }}));
+		if rng.gen_bool(0.3) { chain.push(json!({"op":"mine","who":[victim]})); }
+		if rng.gen_bool(0.2) { chain.push(json!({"op":"mine","who":"none","n":rng.gen_range(15..19)})); }
+		if rng.gen_bool(0.75) { break; }
+	}
+	chain.push(json!({"op":"settle"}));
+	json!({"cfg":{"chan_type":types[rng.gen_range(0..3)],"value":1_000_000,"push":([100_000_000u64, 400_000_000, 500_000_000][rng.gen_range(0..3)]),
+		"feerate":([253u32, 253, 1000][rng.gen_range(0..3)]),"style":[rng.gen_range(0..11), rng.gen_range(0..11)]},
+		"history":history,"close":{"kind":"revoked","owner":owner,"k":"mark"},"chain":chain,"family":"unwind"})
+}
+
+/// An honest unilateral close (holder's or counterparty's latest commitment) whose commitment
+/// transaction -- with whatever HTLC claims have confirmed on top of it -- is reorganised out of the chain
+/// and confirms again, at the same height or later; the network keeps or forgets the nodes' claims.
+fn honest_unwind_script(rng: &mut StdRng) -> Value {
+	let types = ["static", "anchors", "zerofee"];
+	let owner = rng.gen_range(0..2usize);
+	let (history, _) = random_history(rng, false, owner);
+	let history: Vec<Value> = history.into_iter().filter(|o| !(o["op"] == "deliver") && !(o["op"] == "pay" && o["deliver"] == json!(false))).collect();
+	let close = if rng.gen_bool(0.5) { json!({"kind":"force","node":owner,"deliver_error":false}) } else { json!({"kind":"counterparty","owner":owner,"which":"current"}) };
+	let mut chain: Vec<Value> = vec![json!({"op":"mine","who":"all","n":1,"prefer":"old"})];
+	let r = rng.gen_range(0..100);
+	if r < 30 { chain.push(json!({"op":"mine","who":"all","prefer": if rng.gen_bool(0.5) {"new"} else {"old"}})); }
+	else if r < 50 { chain.push(json!({"op":"mine","who":"none","n":rng.gen_range(1..4)})); }
+	else if r < 65 { chain.push(json!({"op":"to_expiry","htlc":rng.gen_range(0..4),"who": if rng.gen_bool(0.5) { json!("all") } else { json!("none") },"off":rng.gen_range(-1..2)})); }
+	for round in 0..2 {
+		let r = rng.gen_range(0..100);
+		let target = if r < 60 || round == 1 { "commit" } else if r < 85 { "claim" } else { "tip" };
+		chain.push(json!({"op":"unwind","target":target,"extra":rng.gen_range(0..3),"keep":rng.gen_bool(0.4)}));
+		if rng.gen_bool(0.3) { for n in 0..2 { chain.push(json!({"op":"rebroadcast","node":n})); } }
+		if rng.gen_bool(0.15) { chain.push(json!({"op":"reload","node":rng.gen_range(0..2)})); }
+		if rng.gen_bool(0.5) { chain.push(json!({"op":"mine","who":"none","n":rng.gen_range(1..4)})); }
+		chain.push(json!({"op":"mine","who":"all","prefer": if rng.gen_bool(0.5) {"new"} else {"old"}}));
+		if rng.gen_bool(0.4) { chain.push(json!({"op":"mine","who":"all"})); }
+		if rng.gen_bool(0.7) { break; }
+	}
+	chain.push(json!({"op":"settle"}));
+	json!({"cfg":{"chan_type":types[rng.gen_range(0..3)],"value":1_000_000,"push":([100_000_000u64, 400_000_000, 500_000_000][rng.gen_range(0..3)]),
+		"feerate":([253u32, 1000, 2500][rng.gen_range(0..3)]),"style":[rng.gen_range(0..11), rng.gen_range(0..11)]},
+		"history":history,"close":close,"chain":chain,"family":"honest_unwind"})
+}
+
+fn std_cfg(rng: &mut StdRng, chan_type: &str) -> Value {
+	json!({"chan_type":chan_type,"value":1_000_000,"push":([400_000_000u64, 500_000_000][rng.gen_range(0..2)]),
+		"feerate":([253u32, 253, 1000][rng.gen_range(0..3)]),"style":[rng.gen_range(0..11), rng.gen_range(0..11)]})
+}
+
+/// Several pending HTLCs with one payment hash (parts of a multi-part payment over the one channel; same
+/// or different amounts and expiries, either direction), every kind of close, the preimage known before
+/// the close or learnt some blocks after the commitment confirmed.
+fn dup_hash_script(rng: &mut StdRng) -> Value {
+	let types = ["static", "anchors", "zerofee"];
+	let mut history: Vec<Value> = Vec::new();
+	let mut multi: Vec<(usize, usize)> = Vec::new(); // (payment, receiver)
+	let npay = rng.gen_range(1..=3usize);
+	for k in 0..npay {
+		let from = rng.gen_range(0..2usize);
+		if k == 0 || rng.gen_bool(0.4) {
+			history.push(json!({"op":"pay","from":from,"amt":(["big", "small", "small"][rng.gen_range(0..3)]),"parts":rng.gen_range(2..=3),"vary":rng.gen_bool(0.5),"stagger":([0u32, 0, 3][rng.gen_range(0..3)])}));
+			multi.push((k, 1 - from));
+		} else {
+			history.push(json!({"op":"pay","from":from,"amt":(["big", "small"][rng.gen_range(0..2)])}));
+		}
+	}
+	let (pick, recv) = multi[rng.gen_range(0..multi.len())];
+	let early = rng.gen_bool(0.3);
+	if early { history.push(json!({"op":"claim","pay":pick,"deliver":false})); }
+	// whose commitment confirms: mostly the payer's (the receiver claims on a counterparty commitment)
+	let owner = if rng.gen_bool(0.7) { 1 - recv } else { recv };
+	let r = rng.gen_range(0..100);
+	let close = if r < 60 { json!({"kind":"counterparty","owner":owner,"which":"current"}) }
+		else if r < 85 { json!({"kind":"force","node":owner,"deliver_error":false}) }
+		else { json!({"kind":"force","node":owner,"deliver_error":false,"both":true}) };
+	let mut chain: Vec<Value> = vec![json!({"op":"mine","who":[owner, HARNESS],"n":1,"prefer":"old"})];
+	if !early {
+		let k = rng.gen_range(0..4u64);
+		if k > 0 { chain.push(json!({"op":"mine","who":"none","n":k})); }
+		chain.push(json!({"op":"preimage","pay":pick}));
+	}
+	for _ in 0..rng.gen_range(0..3) {
+		let r = rng.gen_range(0..100);
+		if r < 30 { chain.push(json!({"op":"mine","who":"all","prefer": if rng.gen_bool(0.5) {"new"} else {"old"}})); }
+		else if r < 50 { chain.push(json!({"op":"mine","who":"none","n":rng.gen_range(1..6)})); }
+		else if r < 60 { chain.push(json!({"op":"reload","node":recv})); }
+		else if r < 75 { chain.push(json!({"op":"rebroadcast","node":recv})); }
+		else if r < 85 && multi.len() > 1 { chain.push(json!({"op":"preimage","pay":multi[rng.gen_range(0..multi.len())].0})); }
+		else { chain.push(json!({"op":"mine","who":[recv, HARNESS]})); }
+	}
+	chain.push(json!({"op":"settle"}));
+	let ct = types[rng.gen_range(0..3)];
+	json!({"cfg":std_cfg(rng, ct),"history":history,"close":close,"chain":chain,"family":"dup_hash"})
+}
+
+/// Both sides go to chain; one commitment confirms (with whatever claims follow), is reorganised out, and
+/// the competing commitment confirms instead; several outbound HTLCs of one expiry (their timeout claims
+/// are aggregated and parked until the expiry); the chain then advances past the expiry.
+fn competing_commitments_script(rng: &mut StdRng) -> Value {
+	let types = ["static", "anchors", "zerofee"];
+	let payer = rng.gen_range(0..2usize);
+	let mut history: Vec<Value> = Vec::new();
+	for _ in 0..rng.gen_range(2..=3) { history.push(json!({"op":"pay","from":payer,"amt":(["big", "small"][rng.gen_range(0..2)])})); }
+	if rng.gen_bool(0.4) { history.push(json!({"op":"pay","from":1 - payer,"amt":"big"})); }
+	if rng.gen_bool(0.3) { history.push(json!({"op":"claim","pay":0,"deliver":false})); }
+	let first = rng.gen_range(0..2usize);
+	let second = 1 - first;
+	let close = json!({"kind":"force","node":first,"deliver_error":false,"both":true});
+	let mut chain: Vec<Value> = vec![json!({"op":"mine","who":[first],"n":1,"prefer":"old"})];
+	if rng.gen_bool(0.5) { chain.push(json!({"op":"mine","who": if rng.gen_bool(0.5) { json!("none") } else { json!([first]) },"n":rng.gen_range(1..4)})); }
+	chain.push(json!({"op":"unwind","target":"commit","extra":rng.gen_range(0..2),"keep":rng.gen_bool(0.5)}));
+	// (one block in which nothing confirms: a commitment the network forgot is announced again)
+	chain.push(json!({"op":"mine","who":"none","n":rng.gen_range(1..3)}));
+	chain.push(json!({"op":"mine","who":[second],"n":1,"prefer":"old"}));
+	if rng.gen_bool(0.3) { chain.push(json!({"op":"reload","node":rng.gen_range(0..2)})); }
+	if rng.gen_bool(0.3) { for n in 0..2 { chain.push(json!({"op":"rebroadcast","node":n})); } }
+	chain.push(json!({"op":"to_expiry","htlc":rng.gen_range(0..3),"who": if rng.gen_bool(0.6) { json!("none") } else { json!("all") },"off":rng.gen_range(0..3)}));
+	for _ in 0..rng.gen_range(0..3) {
+		if rng.gen_bool(0.5) { chain.push(json!({"op":"mine","who":"none","n":rng.gen_range(1..4)})); }
+		else { for n in 0..2 { chain.push(json!({"op":"rebroadcast","node":n})); } }
+	}
+	chain.push(json!({"op":"settle"}));
+	let ct = types[rng.gen_range(0..3)];
+	json!({"cfg":std_cfg(rng, ct),"history":history,"close":close,"chain":chain,"family":"competing_commitments"})
+}
+
+/// The previous, not yet revoked commitment of a node under test confirms after the node has accepted the
+/// next one (its monitor holds both); the preimage of an inbound HTLC arrives only afterwards (or was
+/// known before); the HTLC is in both commitments or only in the newer one.
+fn prev_holder_script(rng: &mut StdRng) -> Value {
+	let types = ["static", "anchors", "zerofee"];
+	let owner = rng.gen_range(0..2usize);
+	let mut history: Vec<Value> = Vec::new();
+	let n_in = rng.gen_range(1..=2usize);
+	for _ in 0..n_in { history.push(json!({"op":"pay","from":1 - owner,"amt":(["big", "small"][rng.gen_range(0..2)])})); }
+	if rng.gen_bool(0.3) { history.push(json!({"op":"pay","from":owner,"amt":"big"})); }
+	let early = rng.gen_bool(0.25);
+	if early { history.push(json!({"op":"claim","pay":0,"deliver":false})); }
+	// one more update that stops right after `owner` has received the new commitment_signed
+	let from = if early { 1 - owner } else { rng.gen_range(0..2usize) };
+	history.push(json!({"op":"deliver_all"}));
+	let last = history.iter().filter(|o| o["op"] == "pay").count();
+	history.push(json!({"op":"pay","from":from,"amt":(["big", "small", "dust"][rng.gen_range(0..3)]),"deliver":false}));
+	history.push(json!({"op":"deliver","n": if owner == 1 - from { 2 } else { 4 }}));
+	let which = if rng.gen_bool(0.8) { "previous" } else { "current" };
+	let close = json!({"kind":"counterparty","owner":owner,"which":which,"owner_live":true});
+	let mut chain: Vec<Value> = vec![json!({"op":"mine","who":"all","n":1,"prefer":"old"})];
+	let k = rng.gen_range(0..4u64);
+	if k > 0 { chain.push(json!({"op":"mine","who":"none","n":k})); }
+	if !early { chain.push(json!({"op":"preimage","pay":rng.gen_range(0..n_in)})); }
+	// (an HTLC that is only in the newer commitment: its preimage is of no use on chain)
+	if from == 1 - owner && rng.gen_bool(0.3) { chain.push(json!({"op":"preimage","pay":last})); }
+	for _ in 0..rng.gen_range(0..3) {
+		let r = rng.gen_range(0..100);
+		if r < 35 { chain.push(json!({"op":"mine","who":"all","prefer": if rng.gen_bool(0.5) {"new"} else {"old"}})); }
+		else if r < 55 { chain.push(json!({"op":"mine","who":"none","n":rng.gen_range(1..6)})); }
+		else if r < 70 { chain.push(json!({"op":"reload","node":owner})); }
+		else if r < 85 { chain.push(json!({"op":"rebroadcast","node":owner})); }
+		else if n_in > 1 { chain.push(json!({"op":"preimage","pay":1})); }
+	}
+	chain.push(json!({"op":"settle"}));
+	let ct = types[rng.gen_range(0..3)];
+	json!({"cfg":std_cfg(rng, ct),"history":history,"close":close,"chain":chain,"family":"prev_holder"})
+}
+
 fn random_script(rng: &mut StdRng, profile: &str) -> Value {
+	if profile == "c07d" { return dup_hash_script(rng); }
+	if profile == "c07x" { return competing_commitments_script(rng); }
+	if profile == "c07p" { return prev_holder_script(rng); }
+	if profile == "c07u" { return honest_unwind_script(rng); }
 	if profile == "c07r" { return late_preimage_reorg_script(rng); }
 	if profile == "c06t" { return csv_race_script(rng); }
+	if profile == "c06s" { return shape_script(rng); }
+	if profile == "c06r" { return unwind_script(rng); }
 	if profile != "c06" && rng.gen_range(0..100) < 30 { return fee_trajectory_script(rng); }
 	let types = ["static", "anchors", "zerofee"];
 	let chan_type = types[rng.gen_range(0..3)];
